@@ -151,3 +151,301 @@ def expand_locals(f: FuncInfo, e: ast.AST, depth: int = 3) -> list[ast.AST]:
                     nxt.append(d)
         frontier = nxt
     return out
+
+
+PURE_CALLS = {
+    "mnc", "qnc", "len", "str", "int", "float", "bool", "tuple", "list", "dict", "set", "frozenset", "zip", "min", "max", "sorted", "reversed", "getattr", "isinstance",
+    "fromtimestamp", "fromisoformat", "timedelta", "total_seconds", "get_queue_marker", "full_message_name_from_short", "parse_short_message_name", "parse_message_name",
+    "keys", "values", "items", "get", "encode", "decode", "copy", "format", "startswith", "split", "join", "partial", "cast", "construct", "deconstruct", "wait_until",
+    "wait_timestamp", "signature", "asyncify", "ceil", "floor", "isoformat",
+}
+
+
+def _inlinable(v: ast.AST, calls: str, awaits: bool) -> bool:
+    for n in ast.walk(v):
+        if isinstance(n, (ast.Await, ast.Yield, ast.YieldFrom)) and not awaits:
+            return False
+        if isinstance(n, ast.Call) and calls != "all":
+            d = dotted(n.func) or (n.func.attr if isinstance(n.func, ast.Attribute) else "")
+            if d.split(".")[-1] not in PURE_CALLS:
+                return False
+        if isinstance(n, (ast.Lambda, ast.NamedExpr)):
+            return False
+    return True
+
+
+def inline_locals(f: FuncInfo, e: ast.AST | None, depth: int = 8, calls: str = "pure", awaits: bool = False) -> ast.AST | None:
+    """A copy of e in which every local name with exactly one plain definition is replaced by that definition (recursively).
+
+    Makes comparisons robust against 'introduce a temporary' / 'inline a temporary' refactorings."""
+    import copy
+
+    if e is None:
+        return None
+    params = {p.arg for p in f.params()}
+    single: dict[str, ast.expr] = {}
+    counts: dict[str, int] = {}
+    for n in ast.walk(f.node):
+        tgts = []
+        if isinstance(n, ast.Assign):
+            for t in n.targets:
+                if isinstance(t, ast.Name):
+                    tgts.append((t.id, n.value))
+                elif isinstance(t, (ast.Tuple, ast.List)):
+                    for el in ast.walk(t):
+                        if isinstance(el, ast.Name):
+                            tgts.append((el.id, None))
+        elif isinstance(n, ast.AnnAssign) and isinstance(n.target, ast.Name):
+            tgts.append((n.target.id, n.value))
+        elif isinstance(n, (ast.AugAssign, ast.NamedExpr)) and isinstance(n.target, ast.Name):
+            tgts.append((n.target.id, None))
+        elif isinstance(n, (ast.For, ast.AsyncFor, ast.comprehension)):
+            for el in ast.walk(n.target):
+                if isinstance(el, ast.Name):
+                    tgts.append((el.id, None))
+        elif isinstance(n, (ast.With, ast.AsyncWith)):
+            for it in n.items:
+                if it.optional_vars is not None:
+                    for el in ast.walk(it.optional_vars):
+                        if isinstance(el, ast.Name):
+                            tgts.append((el.id, None))
+        elif isinstance(n, ast.ExceptHandler) and n.name:
+            tgts.append((n.name, None))
+        for name, val in tgts:
+            counts[name] = counts.get(name, 0) + 1
+            if val is not None:
+                single[name] = val
+            else:
+                single.pop(name, None)
+                counts[name] += 1  # poison
+    single = {k: v for k, v in single.items() if counts.get(k) == 1 and k not in params and _inlinable(v, calls, awaits)}
+
+    class T(ast.NodeTransformer):
+        def __init__(self, d):
+            self.d = d
+
+        def visit_Name(self, node):
+            if isinstance(node.ctx, ast.Load) and node.id in single and self.d > 0:
+                return T(self.d - 1).visit(copy.deepcopy(single[node.id]))
+            return node
+
+    return T(depth).visit(copy.deepcopy(e))
+
+
+def utext(f: FuncInfo, e: ast.AST | None, calls: str = "pure", awaits: bool = False) -> str:
+    """unparse(e) after inlining single-definition locals (pure definitions only, unless asked otherwise)."""
+    return unparse(inline_locals(f, e, calls=calls, awaits=awaits)) if e is not None else ""
+
+
+# ----------------------------------------------------------------------------- refactoring-tolerant views
+def helper_callees(ctx, f: FuncInfo, depth: int = 2) -> list[FuncInfo]:
+    """Same-class / same-module helpers (transitively) that f calls directly (sync, or async and awaited)."""
+    out: list[FuncInfo] = []
+    seen = {f.qualname}
+    frontier = [f]
+    for _ in range(depth):
+        nxt = []
+        for g in frontier:
+            for c in ast.walk(g.node):
+                if not isinstance(c, ast.Call):
+                    continue
+                for cal in ctx.res.callees(g, c):
+                    if cal.qualname in seen or isinstance(cal.node, ast.Lambda):
+                        continue
+                    same = (cal.cls is not None and f.cls is not None and cal.cls.qualname in {k.qualname for k in ctx.prog.mro(f.cls.qualname)}) or \
+                           (cal.cls is None and cal.module is f.module and cal.parent is None)
+                    if same and cal.name not in ("__init__", "__new__", "__post_init__"):
+                        seen.add(cal.qualname)
+                        out.append(cal)
+                        nxt.append(cal)
+        frontier = nxt
+    return out
+
+
+def flat_walk(ctx, f: FuncInfo, depth: int = 2):
+    """(owner function, ast node) for every node of f and of the helpers it calls (helper extraction tolerant)."""
+    for n in ast.walk(f.node):
+        yield f, n
+    for h in helper_callees(ctx, f, depth):
+        for n in ast.walk(h.node):
+            yield h, n
+
+
+def iterations(f: FuncInfo):
+    """(target, iter expr, body nodes, node) for every for-loop / comprehension generator in f."""
+    for n in ast.walk(f.node):
+        if isinstance(n, (ast.For, ast.AsyncFor)):
+            yield n.target, n.iter, n.body, n
+        elif isinstance(n, (ast.ListComp, ast.SetComp, ast.GeneratorExp, ast.DictComp)):
+            for g in n.generators:
+                body = [n.elt] if not isinstance(n, ast.DictComp) else [n.key, n.value]
+                yield g.target, g.iter, body, n
+
+
+def origin_text(f: FuncInfo, e: ast.AST | None) -> str:
+    return utext(f, e)
+
+
+def is_param(f: FuncInfo, e: ast.AST | None, name: str | None = None, pos: int | None = None) -> bool:
+    if not isinstance(e, ast.Name):
+        return False
+    params = [p.arg for p in f.params()]
+    if e.id not in params:
+        return False
+    if name is not None and e.id != name:
+        return False
+    if pos is not None and params.index(e.id) != pos:
+        return False
+    return True
+
+
+def negate_aware_ifexp(e: ast.AST):
+    """(test, value_if_true, value_if_false) with `not`/IsNot/NotEq tests normalised to their positive form."""
+    if not isinstance(e, ast.IfExp):
+        return None
+    t, a, b = e.test, e.body, e.orelse
+    while isinstance(t, ast.UnaryOp) and isinstance(t.op, ast.Not):
+        t, a, b = t.operand, b, a
+    if isinstance(t, ast.Compare) and len(t.ops) == 1 and isinstance(t.ops[0], (ast.IsNot, ast.NotEq, ast.NotIn)):
+        pos = {ast.IsNot: ast.Is, ast.NotEq: ast.Eq, ast.NotIn: ast.In}[type(t.ops[0])]()
+        t = ast.Compare(left=t.left, ops=[pos], comparators=t.comparators)
+        a, b = b, a
+    return t, a, b
+
+
+def multi_defs(f: FuncInfo, name: str) -> list[ast.expr]:
+    return local_defs(f, name)
+
+
+def returned_values(f: FuncInfo) -> list[ast.expr]:
+    """Value expressions a function can return: direct return values, and for `return <local>` every definition of that local."""
+    out: list[ast.expr] = []
+    for r in ast.walk(f.node):
+        if isinstance(r, ast.Return) and r.value is not None:
+            v = r.value
+            if isinstance(v, ast.Name) and v.id not in {p.arg for p in f.params()}:
+                defs = local_defs(f, v.id)
+                if defs:
+                    out += defs
+                    continue
+            out.append(v)
+    return out
+
+
+def fstring_templates(f: FuncInfo, e: ast.AST, depth: int = 3) -> set[str]:
+    """All shapes an f-string / str constant can take, '{}' for every non-constant hole; local names are expanded over all their definitions."""
+    if isinstance(e, ast.Constant) and isinstance(e.value, str):
+        return {e.value}
+    if isinstance(e, ast.Name) and depth > 0:
+        defs = local_defs(f, e.id)
+        if defs and all(isinstance(d, (ast.JoinedStr, ast.Constant, ast.Name)) for d in defs):
+            out: set[str] = set()
+            for d in defs:
+                out |= fstring_templates(f, d, depth - 1)
+            return out
+        return {"{}"}
+    if isinstance(e, ast.JoinedStr):
+        parts: list[set[str]] = []
+        for v in e.values:
+            if isinstance(v, ast.Constant):
+                parts.append({str(v.value)})
+            elif isinstance(v, ast.FormattedValue):
+                if isinstance(v.value, ast.Name) and depth > 0 and local_defs(f, v.value.id) and all(
+                        isinstance(d, (ast.JoinedStr, ast.Constant)) for d in local_defs(f, v.value.id)):
+                    parts.append(fstring_templates(f, v.value, depth - 1))
+                elif isinstance(v.value, ast.IfExp) and isinstance(v.value.body, ast.Constant) and isinstance(v.value.orelse, ast.Constant):
+                    parts.append({str(v.value.body.value), str(v.value.orelse.value)})
+                else:
+                    parts.append({"{}"})
+        res = {""}
+        for p in parts:
+            res = {a + b for a in res for b in p}
+        return res
+    return {"{}"}
+
+
+def collection_build(f: FuncInfo, name: str):
+    """How the local list/dict `name` is built: ('comp', iter, elt/(key,value), ifs) or ('loop', iter, appended expr/(key,value), guards) or None."""
+    for d in local_defs(f, name):
+        if isinstance(d, (ast.ListComp, ast.DictComp)) and len(d.generators) == 1:
+            g = d.generators[0]
+            elt = d.elt if isinstance(d, ast.ListComp) else (d.key, d.value)
+            return ("comp", g.target, g.iter, elt, list(g.ifs))
+    for lp in ast.walk(f.node):
+        if isinstance(lp, ast.For):
+            for st in ast.walk(lp):
+                if isinstance(st, ast.Call) and isinstance(st.func, ast.Attribute) and dotted(st.func.value) == name and st.func.attr == "append" and len(st.args) == 1:
+                    guards = [i.test for i in ast.walk(lp) if isinstance(i, ast.If) and any(x is st for x in ast.walk(i))]
+                    return ("loop", lp.target, lp.iter, st.args[0], guards)
+                if isinstance(st, ast.Assign) and len(st.targets) == 1 and isinstance(st.targets[0], ast.Subscript) and dotted(st.targets[0].value) == name:
+                    guards = [i.test for i in ast.walk(lp) if isinstance(i, ast.If) and any(x is st for x in ast.walk(i))]
+                    return ("loop", lp.target, lp.iter, (st.targets[0].slice, st.value), guards)
+    return None
+
+
+def feeds(f: FuncInfo, e: ast.AST, depth: int = 3) -> list[ast.AST]:
+    """e, the definitions of the locals it mentions, and everything appended/added/extended into those locals (transitively)."""
+    out = expand_locals(f, e, depth)
+    names = set()
+    for x in out:
+        names |= names_in(x)
+    for c in ast.walk(f.node):
+        if isinstance(c, ast.Call) and isinstance(c.func, ast.Attribute) and c.func.attr in ("append", "add", "extend", "update") and isinstance(c.func.value, ast.Name) \
+                and c.func.value.id in names:
+            for a in c.args:
+                out += expand_locals(f, a, depth)
+    return out
+
+
+def bind_call(callee: FuncInfo, call: ast.Call) -> dict[str, ast.expr]:
+    """parameter name -> argument expression of `call` (self/cls skipped for methods called through an attribute)."""
+    params = [p.arg for p in callee.params()]
+    if callee.cls is not None and "staticmethod" not in callee.decorators and params and isinstance(call.func, ast.Attribute):
+        params = params[1:]
+    out: dict[str, ast.expr] = {}
+    for i, a in enumerate(call.args):
+        if isinstance(a, ast.Starred) or i >= len(params):
+            break
+        out[params[i]] = a
+    for k in call.keywords:
+        if k.arg is not None:
+            out[k.arg] = k.value
+    return out
+
+
+def flat_walk_bound(ctx, f: FuncInfo, depth: int = 2):
+    """Like flat_walk, but nodes of a helper are yielded with the helper's parameters replaced by the call-site arguments
+    (only for helpers called from exactly one site), so that argument texts read as if the helper were inlined."""
+    import copy
+
+    for n in ast.walk(f.node):
+        yield f, n
+    frontier = [(f, f.node)]
+    seen = {f.qualname}
+    for _ in range(depth):
+        nxt = []
+        for owner, root in frontier:
+            sites: dict[str, list[tuple[FuncInfo, ast.Call]]] = {}
+            for c in ast.walk(root):
+                if isinstance(c, ast.Call):
+                    for cal in ctx.res.callees(owner, c):
+                        if cal in helper_callees(ctx, f, depth) and cal.qualname not in seen:
+                            sites.setdefault(cal.qualname, []).append((cal, c))
+            for q, lst in sites.items():
+                cal, c = lst[0]
+                seen.add(q)
+                body = copy.deepcopy(cal.node)
+                if len(lst) == 1:
+                    binding = bind_call(cal, c)
+
+                    class T(ast.NodeTransformer):
+                        def visit_Name(self, node):
+                            if isinstance(node.ctx, ast.Load) and node.id in binding:
+                                return copy.deepcopy(binding[node.id])
+                            return node
+
+                    body = T().visit(body)
+                for n in ast.walk(body):
+                    yield cal, n
+                nxt.append((cal, body))
+        frontier = nxt
